@@ -486,7 +486,9 @@ pub fn run(ctx: &Ctx, replay: Option<&Value>) -> i32 {
         sdepth_exact: Mutex::new(0),
     };
     let depth = ctx.tier.pick(2, 3);
-    let stats = bfs::bfs(&model, depth, ctx.tier.pick(40.0, 900.0), ctx.tier.pick(200_000, 3_000_000));
+    // the wall-clock cap is a safety net only (checked between depths; a cap that is hit is reported in
+    // the evidence as cap_hit / exhaustive = false): generous, so that a loaded machine does not cut the search
+    let stats = bfs::bfs(&model, depth, ctx.tier.pick(600.0, 3600.0), ctx.tier.pick(200_000, 3_000_000));
     ctx.sample(json!({"kind": "seq", "init": model.inits[3], "example_history": ["push.1.2.3.4", "u32overflowing_add", "movdn.15"]}));
 
     let h = hist.into_inner().unwrap();
